@@ -18,7 +18,11 @@ static std::set<uint64_t> g_pass_seen;
 static std::string ud_bytes(uint64_t token, int k, bool binary) {
   Rng g(mix2(token, (uint64_t)k)); size_t len = (size_t)g.below(g.chance(1, 6) ? 1 : 50); if (g.chance(1, 10)) len = 0;
   std::string s;
-  for (size_t i = 0; i < len; i++) { char c = binary ? (char)g.below(256) : (char)(32 + g.below(95)); if (!binary && !g_ud_markup && (c == '<' || c == '>' || c == '&')) c = '_'; s += c; }
+  for (size_t i = 0; i < len; i++) { char c = binary ? (char)g.below(256) : (char)(32 + g.below(95)); if (!binary && !g_ud_markup && (c == '<' || c == '>' || c == '&')) c = '_';
+    // tab, line feed and carriage return are the other characters hwloc_export_obj_userdata() accepts; kept inside the text (a parser may drop blank edges)
+    if (!binary && g_ud_markup && i > 0 && i + 1 < len && g.chance(1, 10)) c = "\t\n\r"[g.below(3)];
+    s += c; }
+  if (!binary && g_ud_markup && len >= 2) { if (s[0] == ' ') s[0] = 'x'; if (s[len - 1] == ' ') s[len - 1] = 'x'; }
   return s;
 }
 static void export_cb(void *reserved, hwloc_topology_t topology, hwloc_obj_t obj) {
@@ -51,9 +55,10 @@ static std::string strip_support(const std::string &xml) {
   return out;
 }
 
-static bool export_xml(World &w, Replica &R, bool tofile, bool v2, std::string &out, std::string &path, int *rcp) {
+// keepcb: the export callback is whatever the topology holds (dup must have copied it from its source) and is left in place
+static bool export_xml(World &w, Replica &R, bool tofile, bool v2, std::string &out, std::string &path, int *rcp, bool keepcb = false) {
   unsigned long fl = v2 ? HWLOC_TOPOLOGY_EXPORT_XML_FLAG_V2 : 0;
-  hwloc_topology_set_userdata_export_callback(R.t, export_cb);
+  if (!keepcb) hwloc_topology_set_userdata_export_callback(R.t, export_cb);
   g_pass_seen.clear(); g_ud_markup = w.cfg.ud_markup;
   int rc;
   if (tofile) {
@@ -64,7 +69,7 @@ static bool export_xml(World &w, Replica &R, bool tofile, bool v2, std::string &
     char *buf = nullptr; int len = 0; rc = hwloc_topology_export_xmlbuffer(R.t, &buf, &len, fl);
     if (rc == 0 && buf) { out.assign(buf, len > 0 ? (size_t)len - 1 : 0); if (len <= 0 || buf[len - 1] != '\0') out.assign(buf, (size_t)std::max(len, 0)); hwloc_free_xmlbuffer(R.t, buf); }
   }
-  hwloc_topology_set_userdata_export_callback(R.t, nullptr);
+  if (!keepcb) hwloc_topology_set_userdata_export_callback(R.t, nullptr);
   *rcp = rc; return rc == 0;
 }
 
@@ -125,6 +130,8 @@ bool ops_repl(World &w, const Op &o) {
     if (di < 0) { r.ev("dup skipped: no free replica slot"); return true; }
     Replica &S = w.r[si];
     Dump ds; take_dump(S.t, ds, DUMP_FULL);
+    // the userdata callbacks are part of what the application configured: registered on the source only, the duplicate must export the same document
+    hwloc_topology_set_userdata_export_callback(S.t, export_cb);
     hwloc_topology_t nt = nullptr; errno = 0; int rc = hwloc_topology_dup(&nt, S.t);
     r.ev("dup r%d -> r%d rc=%d", si, di, rc);
     if (rc < 0 || !nt) viol0(w, "C12", "dup.failed", "hwloc_topology_dup failed (errno %d)", errno);
@@ -136,7 +143,8 @@ bool ops_repl(World &w, const Op &o) {
     std::string a = ds.text(), b = dd.text();
     if (a != b) { std::string la, lb; first_diff(a, b, la, lb); viol0(w, "C12", "dup.dump_differs", "dup differs from its source: '%s' vs '%s'", la.c_str(), lb.c_str()); }
     // identical XML export
-    std::string xa, xb, pa, pb; int r1, r2; std::vector<UdRec> ea, eb; g_exported = &ea; bool oka = export_xml(w, S, false, false, xa, pa, &r1); g_exported = &eb; bool okb = export_xml(w, D, false, false, xb, pb, &r2); g_exported = nullptr;
+    std::string xa, xb, pa, pb; int r1, r2; std::vector<UdRec> ea, eb; g_exported = &ea; bool oka = export_xml(w, S, false, false, xa, pa, &r1, true); g_exported = &eb; bool okb = export_xml(w, D, false, false, xb, pb, &r2, true); g_exported = nullptr;
+    hwloc_topology_set_userdata_export_callback(S.t, nullptr); if (nt) hwloc_topology_set_userdata_export_callback(nt, nullptr);
     if (oka != okb || xa != xb) viol0(w, "C12", "dup.xml_differs", "XML export of the dup differs from the XML export of its source (%zu vs %zu bytes)", xa.size(), xb.size());
     // the source must not have been touched by dup itself
     Dump ds2; take_dump(S.t, ds2, DUMP_FULL); if (ds2.text() != a) viol0(w, "C12", "dup.modified_source", "hwloc_topology_dup changed what its source reports");
